@@ -50,3 +50,28 @@ def matches_equal(results, expected):
             if not (r.canonical_values[t] == e[2][t]):
                 return False
     return True
+
+
+def is_chinese_code(uc):
+    return (0x4E00 <= uc and uc <= 0x9FBF) or (0x3400 <= uc and uc <= 0x4DBF)
+
+
+def is_japanese_code(uc):
+    return (0x3040 <= uc and uc <= 0x309F) or (0x30A0 <= uc and uc <= 0x30FF) or (0xFF66 <= uc and uc <= 0xFF9D)
+
+
+def nu_sep_char(c):
+    """number-with-unit tokenizer: a character that is a token of its own"""
+    return (not c.isspace()) and (((not (c == '$')) and not (c.isdigit() or c.isalpha())) or
+                                  is_chinese_code(ord(c)) or is_japanese_code(ord(c)))
+
+
+def nu_material_char(c):
+    return (not c.isspace()) and not nu_sep_char(c)
+
+
+def match_spans(results):
+    out = []
+    for r in results:
+        out.append((r.start, r.length))
+    return out
